@@ -11,17 +11,20 @@ for d in sorted(glob.glob(os.path.join(V, "seeded", "*"))):
     (neutrals if os.path.basename(d).startswith("neutral-") else seeds).append((os.path.basename(d), m))
 out = []
 out.append("Property-breaking changes (each compiles and passes the 90 tests; each was confirmed by `tools/seedtest.py`: existing suite passes with the change, the agent's demonstration fails with it and passes without it).  "
-           "`caught` = the property's quick check exits 1 with a VIOLATION naming the obligation; `undecided` = exit 2 (the change restructured code beyond the extraction rules or used a construct outside the shims: never an alarm, never a pass); `missed` = exit 0.\n")
+           "`caught` = the property's quick check exits 1 with a VIOLATION naming the obligation; `undecided` = exit 2 (the change restructured code beyond the extraction rules or used a construct outside the shims: never an alarm, never a pass); `missed` = exit 0.  **†** = the replay carries a concrete failing input against the real code (Kani playback that fails natively, or a native witness oracle); without it the VIOLATION line ends in `no-failing-input-found`.\n")
 out.append("| id | property | file | what needs to happen for it to manifest (agent's note, first line) | verdict | failing obligations / reason |")
 out.append("|----|----------|------|--------------------------------------------------------------------|---------|------------------------------|")
 cnt = {}
+wit = [0]
 for name, m in seeds:
     c = m["check"]
     cnt[c["verdict"]] = cnt.get(c["verdict"], 0) + 1
     first = next((l.strip("# ").strip() for l in m.get("needs_to_manifest", "").split("\n") if l.strip()), "")[:120].replace("|", "/")
     why = ", ".join(c.get("failing_obligations", [])[:3]) or "; ".join(re.sub(r"^UNDECIDED property=\S+: ", "", u)[:140] for u in c.get("undecided_reason", [])[:1])
-    out.append("| %s | %s | %s | %s | **%s** | %s |" % (name, m["property"], ", ".join(os.path.basename(f) for f in m["files"]), first, c["verdict"], why.replace("|", "/")))
-out.append("\nTotals: %d seeded changes — %s." % (len(seeds), ", ".join("%d %s" % (v, k) for k, v in sorted(cnt.items()))))
+    mark = " †" if c.get("failing_input_found_for") else ""
+    wit[0] += 1 if (c["verdict"] == "caught" and mark) else 0
+    out.append("| %s | %s | %s | %s | **%s**%s | %s |" % (name, m["property"], ", ".join(os.path.basename(f) for f in m["files"]), first, c["verdict"], mark, why.replace("|", "/")))
+out.append("\nTotals: %d seeded changes — %s; %d of the caught ones with a concrete failing input (†)." % (len(seeds), ", ".join("%d %s" % (v, k) for k, v in sorted(cnt.items())), wit[0]))
 out.append("\nBehaviour-preserving refactorings (false-alarm self-test; V and Z obligations of every property mapped to the touched file were run, Kani skipped):\n")
 out.append("| id | file | outcome |")
 out.append("|----|------|---------|")
